@@ -6,7 +6,9 @@
 // missing id) and they sit behind the initialization gate (C06).
 //
 //	<case>\tcreg <hex name>\tok|shadows\t<tags>                 AddReceivingCustomMethod(server, name, echo)
-//	<case>\tcopen <mem|http>\tok|fail<status>\t<tags>           a new session (http: created by its initialize POST + initialized)
+//	<case>\tcopen <mem|http|cli>\tok|fail<status>\t<tags>       a new session (http: created by its initialize POST + initialized;
+//	                                                            cli: a real mcp.Client, Client.Connect does the handshake, calls go
+//	                                                            through AddSendingCustomMethod + CallCustomMethod)
 //	<case>\tchs <k>\tok|fail|na\t<tags>                         initialize + notifications/initialized on pipe session k
 //	<case>\tccall <k> <hex name> <id|noid> <shape>\tw=<none|ok|e<code>|multiN|strayN|malformed> http=<-|status> h=<n>\t<tags>
 //
@@ -19,6 +21,7 @@ import (
 	"bytes"
 	"context"
 	"encoding/json"
+	"errors"
 	"fmt"
 	"io"
 	"log/slog"
@@ -29,6 +32,8 @@ import (
 	"os"
 	"strings"
 	"sync/atomic"
+
+	"github.com/modelcontextprotocol/go-sdk/jsonrpc"
 	"testing"
 	"testing/synctest"
 )
@@ -102,6 +107,7 @@ type gcSess struct {
 	c2   net.Conn
 	ss   *ServerSession
 	sid  string // http
+	cs   *ClientSession // cli
 }
 
 var gcShapes = []string{"absent", "null", "ok", "undecodable", "wrongtype"}
@@ -205,7 +211,38 @@ func gcRunCase(t *testing.T, c gcCase, emit func(i int, obs string)) {
 					emit(i, "ok")
 				}
 			case "copen":
-				if op.tr == "mem" {
+				if op.tr == "cli" {
+					ct, st := NewInMemoryTransports()
+					ss, err := server.Connect(ctx, st, nil)
+					if err != nil {
+						t.Fatal(err)
+					}
+					client := NewClient(&Implementation{Name: "verif-client", Version: "1"}, nil)
+					for _, n := range append(append([]string{}, gcNames...), "acme/never") {
+						if err := AddSendingCustomMethod[*gcEchoParams, *gcEchoResult](client, n); err != nil {
+							t.Fatal(err)
+						}
+					}
+					var cs *ClientSession
+					var cerr error
+					done := make(chan struct{})
+					go func() {
+						defer close(done)
+						cs, cerr = client.Connect(ctx, ct, &ClientSessionOptions{ProtocolVersion: protocolVersion20251125})
+					}()
+					synctest.Wait()
+					select {
+					case <-done:
+					default:
+						t.Fatal("client Connect did not finish")
+					}
+					sess = append(sess, &gcSess{tr: "cli", ss: ss, cs: cs})
+					if cerr != nil {
+						emit(i, "fail0")
+					} else {
+						emit(i, "ok")
+					}
+				} else if op.tr == "mem" {
 					c1, c2 := net.Pipe()
 					peer := gateNewPeer(c2)
 					ss, err := server.Connect(ctx, &InMemoryTransport{rwc: c1}, nil)
@@ -261,7 +298,38 @@ func gcRunCase(t *testing.T, c gcCase, emit func(i int, obs string)) {
 				env := fmt.Sprintf(`{"jsonrpc":"2.0",%s"method":%s%s}`, idTok, mname, gcParams(op.shape))
 				before := ran.Load()
 				var w, hs string
-				if s.tr == "mem" {
+				if s.tr == "cli" {
+					// a real client: only calls (with an id) with well-formed or nil params can be made
+					if !op.hasID || (op.shape != "ok" && op.shape != "absent") || s.cs == nil || strings.HasPrefix(op.name, "notifications/") {
+						emit(i, "na")
+						continue
+					}
+					var params *gcEchoParams
+					if op.shape == "ok" {
+						params = &gcEchoParams{Text: "hi"}
+					}
+					var cerr error
+					done := make(chan struct{})
+					go func() {
+						defer close(done)
+						_, cerr = CallCustomMethod[*gcEchoParams, *gcEchoResult](ctx, s.cs, op.name, params)
+					}()
+					synctest.Wait()
+					w, hs = "ok", "-"
+					select {
+					case <-done:
+						if cerr != nil {
+							var we *jsonrpc.Error
+							if errors.As(cerr, &we) {
+								w = fmt.Sprintf("e%d", we.Code)
+							} else {
+								w = "malformed"
+							}
+						}
+					default:
+						w = "none" // the call is still waiting for its response
+					}
+				} else if s.tr == "mem" {
 					go s.peer.write(env)
 					synctest.Wait()
 					w, hs = gateWire1(s.peer.takeResps(), want, op.hasID), "-"
@@ -279,6 +347,9 @@ func gcRunCase(t *testing.T, c gcCase, emit func(i int, obs string)) {
 		for _, s := range sess {
 			if s.tr == "mem" {
 				go s.ss.Close()
+			}
+			if s.tr == "cli" && s.cs != nil {
+				go s.cs.Close()
 			}
 		}
 		synctest.Wait()
@@ -310,6 +381,7 @@ func gcRandom(id string, rng *rand.Rand) gcCase {
 	c := gcCase{id: id}
 	n := 3 + rng.Intn(9)
 	nsess := 0
+	var trs []string
 	for len(c.ops) < n {
 		switch r := rng.Intn(100); {
 		case r < 18:
@@ -319,11 +391,9 @@ func gcRandom(id string, rng *rand.Rand) gcCase {
 			}
 			c.ops = append(c.ops, gcOp{kind: "creg", name: name})
 		case r < 34 || nsess == 0:
-			tr := "mem"
-			if rng.Intn(2) == 0 {
-				tr = "http"
-			}
+			tr := []string{"mem", "mem", "http", "http", "cli"}[rng.Intn(5)]
 			c.ops = append(c.ops, gcOp{kind: "copen", tr: tr})
+			trs = append(trs, tr)
 			nsess++
 		case r < 46:
 			c.ops = append(c.ops, gcOp{kind: "chs", k: rng.Intn(nsess)})
@@ -336,7 +406,20 @@ func gcRandom(id string, rng *rand.Rand) gcCase {
 			if rng.Intn(2) == 0 {
 				shape = gcShapes[rng.Intn(len(gcShapes))]
 			}
-			c.ops = append(c.ops, gcOp{kind: "ccall", k: rng.Intn(nsess), name: name, hasID: rng.Intn(5) != 0, shape: shape})
+			k := rng.Intn(nsess)
+			hasID := rng.Intn(5) != 0
+			if trs[k] == "cli" { // what a real client can send
+				// (not a name starting with "notifications/": the client's sending side treats it as a notification
+				// and CallCustomMethod then panics on the nil result — reported separately, not C02/C06's subject)
+				if strings.HasPrefix(name, "notifications/") {
+					name = "acme/a"
+				}
+				hasID = true
+				if shape != "ok" {
+					shape = "absent"
+				}
+			}
+			c.ops = append(c.ops, gcOp{kind: "ccall", k: k, name: name, hasID: hasID, shape: shape})
 		}
 	}
 	return c
@@ -345,10 +428,13 @@ func gcRandom(id string, rng *rand.Rand) gcCase {
 // gcOrders: every order of {register, set the session up, handshake} before one call, per transport, id, shape.
 func gcOrders() []gcCase {
 	var out []gcCase
-	for _, tr := range []string{"mem", "http"} {
+	for _, tr := range []string{"mem", "http", "cli"} {
 		for _, order := range [][]string{{"reg", "open", "hs"}, {"open", "reg", "hs"}, {"open", "hs", "reg"}, {"open", "hs"}, {"reg", "open"}, {"open", "reg"}} {
 			for _, hasID := range []bool{true, false} {
 				for _, shape := range gcShapes {
+					if tr == "cli" && (!hasID || (shape != "ok" && shape != "absent")) {
+						continue
+					}
 					c := gcCase{id: fmt.Sprintf("o%d", len(out)), tag: "orders"}
 					for _, o := range order {
 						switch o {
